@@ -46,6 +46,7 @@ theorem digitsOk_replicate (n : Nat) : DigitsOk (List.replicate n 0) := by
 
 theorem shiftSig_ok {low : List Nat} (h : DigitsOk low) : DigitsOk (shiftSig low) := by
   unfold shiftSig
+  simp only
   split
   · intro d hd; simp at hd; omega
   · apply digitsOk_of_subset h
@@ -53,6 +54,19 @@ theorem shiftSig_ok {low : List Nat} (h : DigitsOk low) : DigitsOk (shiftSig low
     have hd' : d ∈ low.reverse.dropWhile (· == 0) := by simpa using hd
     have := (List.dropWhile_sublist (· == 0) (l := low.reverse)).subset hd'
     simpa using this
+
+theorem shiftBuf_ok {r0 r : List Nat} {p : Nat} (h0 : DigitsOk r0) (h : shiftBuf r0 p = some r) :
+    DigitsOk r := by
+  unfold shiftBuf at h
+  dsimp only at h
+  split at h
+  · cases h; exact digitsOk_append (digitsOk_replicate _) h0
+  · split at h
+    · cases h
+      apply digitsOk_append (digitsOk_append (digitsOk_replicate _) _)
+      · exact digitsOk_of_subset h0 (fun d hd => List.mem_of_mem_drop hd)
+      · exact shiftSig_ok (digitsOk_of_subset h0 (fun d hd => List.mem_of_mem_take hd))
+    · cases h
 
 theorem step_wf (b : DS) (op : Op) (hb : Wf b) (hop : OpOk op) : Wf (b.step op).2 := by
   unfold Wf at *
@@ -90,11 +104,8 @@ theorem step_wf (b : DS) (op : Op) (hb : Wf b) (hop : OpOk op) : Wf (b.step op).
       · intro d hd; simp at hd; omega
       · exact hb
     split
-    · exact digitsOk_append (digitsOk_replicate _) h0
-    split <;> try exact hb
-    · apply digitsOk_append (digitsOk_append (digitsOk_replicate _) _)
-      · exact digitsOk_of_subset h0 (fun d hd => List.mem_of_mem_drop hd)
-      · exact shiftSig_ok (digitsOk_of_subset h0 (fun d hd => List.mem_of_mem_take hd))
+    · rename_i r hr; exact shiftBuf_ok h0 hr
+    · exact hb
   | fput ds =>
     simp only [DS.step, DS.fput]
     split <;> try exact hb
@@ -137,11 +148,11 @@ theorem C12_wf (ops : List Op) (hops : ∀ op ∈ ops, OpOk op) :
 /-- **C12 (atomicity)** — for every builder state whatsoever and every operation. -/
 theorem C12_atomic (b : DS) (op : Op) (e : Err) (h : (b.step op).1 = some e) : (b.step op).2 = b := by
   cases op with
-  | put ds => simp only [DS.step, DS.put] at *; repeat (split at h <;> simp_all)
-  | putAt d p => simp only [DS.step, DS.putDigitAt] at *; repeat (split at h <;> simp_all)
-  | shift p => simp only [DS.step, DS.shift] at *; repeat (split at h <;> simp_all)
-  | fput ds => simp only [DS.step, DS.fput] at *; repeat (split at h <;> simp_all)
-  | push ds => simp only [DS.step, DS.push] at *; repeat (split at h <;> simp_all)
+  | put ds => simp only [DS.step] at *; unfold DS.put at *; repeat' (split <;> try simp_all)
+  | putAt d p => simp only [DS.step] at *; unfold DS.putDigitAt at *; repeat' (split <;> try simp_all)
+  | shift p => simp only [DS.step] at *; unfold DS.shift at *; repeat' (split <;> try simp_all)
+  | fput ds => simp only [DS.step] at *; unfold DS.fput at *; repeat' (split <;> try simp_all)
+  | push ds => simp only [DS.step] at *; unfold DS.push at *; repeat' (split <;> try simp_all)
   | freeze => simp [DS.step] at h
   | reset => simp [DS.step] at h
 
@@ -163,24 +174,33 @@ theorem C12_put_value (b : DS) (ds : List Nat) (hok : (b.put ds).1 = none)
     (b.put ds).2.value = b.value + argValue ds ∧
     (b.rbuf = [] ∨ allZero (b.rbuf.take ds.length) = true) ∧
     (b.put ds).2.lz = b.lz := by
-  unfold DS.put at *
-  split at hok <;> try simp at hok
-  split at hok
-  · rename_i h; exfalso; apply hz; simpa using h
-  split at hok <;> try simp at hok
-  split at hok
-  · rename_i h
-    have hb : b.rbuf = [] := by simpa using h
-    simp [DS.value, argValue, hb, valueOf]
-  split at hok <;> try simp at hok
-  split at hok <;> try simp at hok
-  · rename_i hlen hfree
+  unfold DS.put at hok ⊢
+  by_cases hf : b.frozen = true
+  · rw [if_pos hf] at hok; simp at hok
+  rw [if_neg hf] at hok ⊢
+  by_cases h0 : (b.rbuf.isEmpty && ds == [0]) = true
+  · exfalso; apply hz; simpa using h0
+  rw [if_neg h0] at hok ⊢
+  by_cases hz2 : allZero ds = true
+  · rw [if_pos hz2] at hok; simp at hok
+  rw [if_neg hz2] at hok ⊢
+  by_cases he : b.rbuf.isEmpty = true
+  · rw [if_pos he]
+    have hb : b.rbuf = [] := by simpa using he
+    simp [hb, DS.value, argValue, valueOf]
+  rw [if_neg he] at hok ⊢
+  by_cases hl : b.rbuf.length < ds.length
+  · rw [if_pos hl] at hok; simp at hok
+  rw [if_neg hl] at hok ⊢
+  by_cases hfree : allZero (b.rbuf.take ds.length) = true
+  · rw [if_pos hfree]
     refine ⟨?_, Or.inr hfree, rfl⟩
     simp only [DS.value, argValue]
     rw [valueOf_append, valueOf_take_drop ds.length b.rbuf, valueOf_allZero hfree]
     have : (List.take ds.length b.rbuf).length = ds.length := by
       simp; omega
     simp [this]; omega
+  · rw [if_neg hfree] at hok; simp at hok
 
 /-- **put "0"**: accepted exactly when the value is still zero (empty buffer, not frozen); it is
 counted and kept. -/
@@ -200,19 +220,24 @@ theorem C12_zero (b : DS) :
 /-- **put_digit_at**: on success the value grows by `d·10^p`. -/
 theorem C12_putAt_value (b : DS) (d p : Nat) (hok : (b.putDigitAt d p).1 = none) :
     (b.putDigitAt d p).2.value = b.value + d * 10 ^ p := by
-  unfold DS.putDigitAt at *
-  split at hok <;> try simp at hok
-  split at hok <;> try simp at hok
-  split at hok
-  · rename_i hp
+  unfold DS.putDigitAt at hok ⊢
+  by_cases hf : b.frozen = true
+  · rw [if_pos hf] at hok; simp at hok
+  rw [if_neg hf] at hok ⊢
+  by_cases hd : (d == 0) = true
+  · rw [if_pos hd] at hok; simp at hok
+  rw [if_neg hd] at hok ⊢
+  by_cases hp : p ≥ b.rbuf.length
+  · rw [if_pos hp]
     simp only [DS.value]
     rw [valueOf_append, valueOf_append, valueOf_replicate_zero]
     simp [valueOf]
     have : b.rbuf.length + (p - b.rbuf.length) = p := by omega
     rw [this, Nat.mul_comm]
-  split at hok <;> try simp at hok
-  · rename_i hp h0
-    have hp' : p < b.rbuf.length := by omega
+  rw [if_neg hp] at hok ⊢
+  by_cases h0 : (b.rbuf.getD p 0 == 0) = true
+  · have hp' : p < b.rbuf.length := by omega
+    rw [if_pos h0]
     simp only [DS.value]
     have hset : b.rbuf.set p d = b.rbuf.take p ++ d :: b.rbuf.drop (p + 1) := by
       rw [List.set_eq_take_append_cons_drop]; simp [hp']
@@ -229,65 +254,73 @@ theorem C12_putAt_value (b : DS) (d p : Nat) (hok : (b.putDigitAt d p).1 = none)
     have : min p b.rbuf.length = p := by omega
     rw [this, Nat.mul_add, Nat.mul_add]
     simp [Nat.mul_comm]; omega
+  · rw [if_neg h0] at hok; simp at hok
 
-/-- **shift**: on success the rightmost `p`-digit group `g` (or an implicit 1 when that group is
-zero or absent) is multiplied by `10^p`: `value' = value − g₀ + g·10^p` where `g₀` is the old group.
-Stated without subtraction. Hypothesis `hcanon`: a buffer not longer than `p` is empty or non-zero
-(always true of buffers built by `put`/`put_digit_at`/`shift`; an all-zero buffer can only be forced
-with `fput`/`push`). -/
-theorem C12_shift_value (b : DS) (p : Nat) (hp : 0 < p) (hok : (b.shift p).1 = none)
-    (hcanon : b.rbuf.length ≤ p → b.rbuf ≠ [] → valueOf b.rbuf ≠ 0) :
-    let g0 := valueOf (b.rbuf.take p)
-    let g := if g0 = 0 then 1 else g0
-    (b.shift p).2.value + g0 = b.value + g * 10 ^ p := by
-  intro g0 g
-  unfold DS.shift at *
-  split at hok <;> try simp at hok
-  split at hok
-  · rename_i h; simp at h; omega
-  by_cases hemp : b.rbuf = []
-  · -- empty buffer: an implicit 1 followed by p zeros
-    simp [hemp, DS.value, valueOf, g, g0]
-    have : (1 : Nat) ≤ p := hp
-    simp [this, valueOf_append, valueOf_replicate_zero, valueOf]
-  · have hne : b.rbuf.isEmpty = false := by simpa using hemp
-    simp only [hne, Bool.false_eq_true, if_false] at hok ⊢
-    split at hok
-    · rename_i hl
-      have hl' : b.rbuf.length ≤ p := by simpa using hl
-      have htake : b.rbuf.take p = b.rbuf := List.take_of_length_le hl'
-      have hv := hcanon hl' hemp
-      simp only [DS.value, g, g0, htake, hv, if_false, hl, if_true]
-      rw [valueOf_append, valueOf_replicate_zero]
-      simp [Nat.mul_comm]
-    · rename_i hl
-      have hl' : p < b.rbuf.length := by simpa using hl
-      split at hok <;> try simp at hok
-      rename_i hcond
+/-- the `C12_shift_value` arithmetic on the raw buffer -/
+theorem shiftBuf_value {r0 r : List Nat} {p : Nat} (h : shiftBuf r0 p = some r)
+    (hcanon : r0.length ≤ p → valueOf r0 ≠ 0) :
+    valueOf r + valueOf (r0.take p) =
+      valueOf r0 + (if valueOf (r0.take p) = 0 then 1 else valueOf (r0.take p)) * 10 ^ p := by
+  unfold shiftBuf at h
+  dsimp only at h
+  split at h
+  · rename_i hl
+    cases h
+    have htake : r0.take p = r0 := List.take_of_length_le hl
+    have hv := hcanon hl
+    rw [htake, valueOf_append, valueOf_replicate_zero]
+    simp only [hv, if_false, List.length_replicate, Nat.zero_add]
+    rw [Nat.mul_comm (valueOf r0) (10 ^ p)]; omega
+  · rename_i hl
+    have hl' : p < r0.length := by omega
+    split at h
+    · rename_i hcond
+      cases h
       simp only [Bool.and_eq_true, decide_eq_true_eq] at hcond
       obtain ⟨hlen, hmid⟩ := hcond
-      simp only [hl, if_false, DS.value]
-      have hcond' : (decide (b.rbuf.length ≥ p + (shiftSig (List.take p b.rbuf)).length) &&
-          allZero (List.take (shiftSig (List.take p b.rbuf)).length (List.drop p b.rbuf))) = true := by
-        simp [hlen, hmid]
-      simp only [hcond', if_true]
-      set low := b.rbuf.take p with hlow
-      set k := (shiftSig low).length with hk
-      have hlowlen : low.length = p := by simp [hlow]; omega
-      -- decompose the old buffer: low ++ mid ++ rest
-      have hsplit : valueOf b.rbuf = valueOf low + 10 ^ p * (valueOf ((b.rbuf.drop p).take k) +
-          10 ^ k * valueOf (b.rbuf.drop (p + k))) := by
-        rw [valueOf_take_drop p b.rbuf, ← hlow, hlowlen, valueOf_take_drop k (b.rbuf.drop p)]
-        have : (List.take k (List.drop p b.rbuf)).length = k := by simp; omega
+      generalize hlow : r0.take p = low at *
+      generalize hk : (shiftSig low).length = k at *
+      have hlowlen : low.length = p := by rw [← hlow]; simp; omega
+      have hsplit : valueOf r0 = valueOf low + 10 ^ p * (valueOf ((r0.drop p).take k) +
+          10 ^ k * valueOf (r0.drop (p + k))) := by
+        rw [valueOf_take_drop p r0, hlow, hlowlen, valueOf_take_drop k (r0.drop p)]
+        have : (List.take k (List.drop p r0)).length = k := by simp; omega
         rw [this, List.drop_drop]
       rw [hsplit, valueOf_allZero hmid]
       rw [valueOf_append, valueOf_append, valueOf_replicate_zero, shiftSig_value]
-      simp only [List.length_replicate, Nat.zero_add, Nat.add_zero, ← hk]
-      show _ = _ + g * 10 ^ p
-      simp only [g, g0]
-      rw [Nat.mul_add, Nat.mul_comm (10 ^ p) (if valueOf low = 0 then 1 else valueOf low)]
-      rw [← Nat.mul_assoc, ← Nat.pow_add]
-      omega
+      have hlen2 : (List.replicate p 0 ++ shiftSig low).length = p + k := by simp [hk]
+      rw [hlen2, Nat.pow_add]
+      simp only [List.length_replicate, Nat.zero_add]
+      generalize (if valueOf low = 0 then 1 else valueOf low) = g
+      generalize valueOf (List.drop (p + k) r0) = R
+      generalize valueOf low = L
+      generalize 10 ^ p = A
+      generalize 10 ^ k = B
+      rw [Nat.mul_assoc, Nat.mul_comm g A]; omega
+    · cases h
+
+/-- **shift**: on success the rightmost `p`-digit group `g₀` (or an implicit 1 when that group is
+zero or absent) is multiplied by `10^p`: `value' = value − g₀ + g·10^p`, stated without subtraction.
+Hypothesis `hcanon`: a non-empty buffer not longer than `p` is non-zero (always true of buffers
+built by `put`/`put_digit_at`/`shift`; an all-zero buffer can only be forced with `fput`/`push`). -/
+theorem C12_shift_value (b : DS) (p : Nat) (hp : 0 < p) (hok : (b.shift p).1 = none)
+    (hcanon : b.rbuf.length ≤ p → b.rbuf ≠ [] → valueOf b.rbuf ≠ 0) :
+    (b.shift p).2.value + valueOf (b.rbuf.take p) =
+      b.value + (if valueOf (b.rbuf.take p) = 0 then 1 else valueOf (b.rbuf.take p)) * 10 ^ p := by
+  have hf := shift_not_frozen hok
+  have hp' : p ≠ 0 := by omega
+  rw [shift_eq b p hf hp'] at hok ⊢
+  by_cases he : b.rbuf.isEmpty = true
+  · have hemp : b.rbuf = [] := by simpa using he
+    rw [if_pos he, shiftBuf_one p hp']
+    simp [DS.value, hemp, valueOf, valueOf_append, valueOf_replicate_zero]
+  · rw [if_neg he] at hok ⊢
+    have hemp : b.rbuf ≠ [] := by simpa using he
+    cases hsb : shiftBuf b.rbuf p with
+    | none => rw [hsb] at hok; simp at hok
+    | some r =>
+      simp only [DS.value]
+      exact shiftBuf_value hsb (fun hl => hcanon hl hemp)
 
 /-! ### 5. no previously placed non-zero digit is lost by a successful place or shift -/
 
@@ -323,57 +356,56 @@ theorem nonZero_stripHigh (low : List Nat) :
 /-- **digits kept (put)** -/
 theorem C12_put_keeps (b : DS) (ds : List Nat) (hok : (b.put ds).1 = none) :
     (nonZero b.rbuf).Sublist (b.put ds).2.rbuf := by
-  unfold DS.put at *
-  split at hok <;> try simp at hok
-  split at hok
-  · exact nonZero_sublist _
-  split at hok <;> try simp at hok
-  split at hok
-  · rename_i h
-    have hb : b.rbuf = [] := by simpa using h
+  unfold DS.put at hok ⊢
+  by_cases hf : b.frozen = true
+  · rw [if_pos hf] at hok; simp at hok
+  rw [if_neg hf] at hok ⊢
+  by_cases h0 : (b.rbuf.isEmpty && ds == [0]) = true
+  · rw [if_pos h0]; exact nonZero_sublist _
+  rw [if_neg h0] at hok ⊢
+  by_cases hz2 : allZero ds = true
+  · rw [if_pos hz2] at hok; simp at hok
+  rw [if_neg hz2] at hok ⊢
+  by_cases he : b.rbuf.isEmpty = true
+  · have hb : b.rbuf = [] := by simpa using he
     simp [hb, nonZero]
-  split at hok <;> try simp at hok
-  split at hok <;> try simp at hok
-  · rename_i hlen hfree
-    simp only
+  rw [if_neg he] at hok ⊢
+  by_cases hl : b.rbuf.length < ds.length
+  · rw [if_pos hl] at hok; simp at hok
+  rw [if_neg hl] at hok ⊢
+  by_cases hfree : allZero (b.rbuf.take ds.length) = true
+  · rw [if_pos hfree]
     have : nonZero b.rbuf = nonZero (b.rbuf.drop ds.length) := by
       conv => lhs; rw [← List.take_append_drop ds.length b.rbuf]
       rw [nonZero_append, nonZero_allZero hfree]; rfl
     rw [this]
     exact (nonZero_sublist _).trans (List.sublist_append_right _ _)
+  · rw [if_neg hfree] at hok; simp at hok
 
-/-- **digits kept (shift)** -/
-theorem C12_shift_keeps (b : DS) (p : Nat) (hok : (b.shift p).1 = none) :
-    (nonZero b.rbuf).Sublist (b.shift p).2.rbuf := by
-  unfold DS.shift at *
-  split at hok <;> try simp at hok
-  split at hok
-  · exact nonZero_sublist _
-  by_cases hemp : b.rbuf = []
-  · simp [hemp, nonZero]
-  · have hne : b.rbuf.isEmpty = false := by simpa using hemp
-    simp only [hne, Bool.false_eq_true, if_false] at hok ⊢
-    split at hok
-    · rename_i hl
-      simp only [hl, if_true]
-      exact (nonZero_sublist _).trans (List.sublist_append_right _ _)
-    · rename_i hl
-      split at hok <;> try simp at hok
-      rename_i hcond
-      simp only [hl, if_false, hcond, if_true]
+theorem shiftBuf_keeps {r0 r : List Nat} {p : Nat} (h : shiftBuf r0 p = some r) :
+    (nonZero r0).Sublist r := by
+  unfold shiftBuf at h
+  dsimp only at h
+  split at h
+  · cases h
+    exact (nonZero_sublist _).trans (List.sublist_append_right _ _)
+  · split at h
+    · rename_i hcond
+      cases h
       simp only [Bool.and_eq_true, decide_eq_true_eq] at hcond
       obtain ⟨hlen, hmid⟩ := hcond
-      set low := b.rbuf.take p with hlow
-      set k := (shiftSig low).length with hk
-      have hdecomp : b.rbuf = low ++ ((b.rbuf.drop p).take k ++ b.rbuf.drop (p + k)) := by
-        rw [hlow]
-        conv => lhs; rw [← List.take_append_drop p b.rbuf, ← List.take_append_drop k (b.rbuf.drop p)]
+      generalize hlow : r0.take p = low at *
+      generalize hk : (shiftSig low).length = k at *
+      have hdecomp : r0 = low ++ ((r0.drop p).take k ++ r0.drop (p + k)) := by
+        rw [← hlow]
+        conv => lhs; rw [← List.take_append_drop p r0, ← List.take_append_drop k (r0.drop p)]
         rw [List.drop_drop]
-      have hnz : nonZero b.rbuf = nonZero low ++ nonZero (b.rbuf.drop (p + k)) := by
+      have hnz : nonZero r0 = nonZero low ++ nonZero (r0.drop (p + k)) := by
         conv => lhs; rw [hdecomp]
         rw [nonZero_append, nonZero_append, nonZero_allZero hmid]; rfl
       have hsig : (nonZero low).Sublist (shiftSig low) := by
         unfold shiftSig
+        simp only
         split
         · rename_i hs
           have hs' : (low.reverse.dropWhile (· == 0)).reverse = [] := by simpa using hs
@@ -382,12 +414,30 @@ theorem C12_shift_keeps (b : DS) (p : Nat) (hok : (b.shift p).1 = none) :
           rw [← this]; simp [nonZero]
         · rw [← nonZero_stripHigh low]; exact nonZero_sublist _
       rw [hnz]
-      have h1 : (nonZero low ++ nonZero (b.rbuf.drop (p + k))).Sublist
-          (shiftSig low ++ b.rbuf.drop (p + k)) := List.Sublist.append hsig (nonZero_sublist _)
-      have h2 : (shiftSig low ++ b.rbuf.drop (p + k)).Sublist
-          (List.replicate p 0 ++ shiftSig low ++ b.rbuf.drop (p + k)) := by
+      have h1 : (nonZero low ++ nonZero (r0.drop (p + k))).Sublist
+          (shiftSig low ++ r0.drop (p + k)) := List.Sublist.append hsig (nonZero_sublist _)
+      have h2 : (shiftSig low ++ r0.drop (p + k)).Sublist
+          (List.replicate p 0 ++ shiftSig low ++ r0.drop (p + k)) := by
         rw [List.append_assoc]; exact List.sublist_append_right _ _
       exact h1.trans h2
+    · cases h
+
+/-- **digits kept (shift)** -/
+theorem C12_shift_keeps (b : DS) (p : Nat) (hok : (b.shift p).1 = none) :
+    (nonZero b.rbuf).Sublist (b.shift p).2.rbuf := by
+  have hf := shift_not_frozen hok
+  by_cases hp' : p = 0
+  · subst hp'
+    simp only [DS.shift, hf, Bool.false_eq_true, if_false, beq_self_eq_true, if_true]
+    exact nonZero_sublist _
+  rw [shift_eq b p hf hp'] at hok ⊢
+  by_cases he : b.rbuf.isEmpty = true
+  · have hemp : b.rbuf = [] := by simpa using he
+    simp [hemp, nonZero]
+  · rw [if_neg he] at hok ⊢
+    cases hsb : shiftBuf b.rbuf p with
+    | none => rw [hsb] at hok; simp at hok
+    | some r => exact shiftBuf_keeps hsb
 
 /-! ### 6. no query or operation panics -/
 
